@@ -77,7 +77,16 @@ MUTS = [
      "            timegrid_tmp.I = np.array(range(0, timegrid_tmp.T))  \n            timegrid_tmp.Dt = np.cumsum(timegrid_tmp.dt)\n", ["C14"]),
     ("c15_date_exclusive_and_rowpos", "eaopack/portfolio.py", "            I = mapping.index[I].unique() # the variables (the mapping may contain several rows per variable)\n",
      "            I = np.where(I.values)[0][np.where(I.values)[0] < n_vars] # positions\n", ["C15"]),
+    ("c12_discount_without_unit", "eaopack/basic_classes.py",
+     "self.discount_factors =  1./d**(self.Dt*pd.Timedelta(1, self.main_time_unit)/pd.Timedelta(1, 'd')) ",
+     "self.discount_factors =  1./d**(self.Dt/24.) ", ["C12", "C02"]),
+    ("c12_cost_store_without_dt", "eaopack/assets.py", "cost_store = self.cost_store * dt * discount", "cost_store = self.cost_store * discount", ["C12", "C02"]),
+    ("c12_ramp_not_scaled", "eaopack/assets.py", "ramp = self.ramp * self.timegrid.restricted.dt[0] if self.ramp is not None else None",
+     "ramp = self.ramp if self.ramp is not None else None", ["C12", "C06"]),
+    ("c12_runtime_not_converted", "eaopack/assets.py", "min_downtime = self.convert_to_timegrid_freq(self.min_downtime, \"min_downtime\")",
+     "min_downtime = int(np.ceil(self.min_downtime))", ["C12", "C06"]),
 ]
+
 
 
 def run(names):
